@@ -83,9 +83,10 @@ Print Assumptions C06_mailbox_created_effect.
 
 (* T1: what the translator reads from connector_updates.go on every run: applyMailboxUpdated compares the names EXACTLY
    (a change of letter case is a rename) and applyMessageMailboxesUpdated queues the membership updates before the flag
-   updates *)
-Theorem C06_source_facts : mailbox_rename_compares_exactly = true /\ mailbox_updates_before_flag_updates = true.
-Proof. exact (conj eq_refl eq_refl). Qed.
+   updates, applyMailboxCreated stores FLAGS, PERMANENTFLAGS and attributes of the update each in its place *)
+Theorem C06_source_facts : mailbox_rename_compares_exactly = true /\ mailbox_updates_before_flag_updates = true /\
+  mailbox_created_passes_three_sets = true.
+Proof. exact (conj eq_refl (conj eq_refl eq_refl)). Qed.
 Print Assumptions C06_source_facts.
 
 (* a MailboxUpdated whose canonical name differs from the stored one in any way — letter case included — renames the
